@@ -8,7 +8,7 @@ import json, os, re, shutil, subprocess, sys, time
 ENV = dict(os.environ, GOFLAGS="-mod=mod", GOPROXY="off", GOSUMDB="off", GOTOOLCHAIN="local")
 prop, wt, n = sys.argv[1], sys.argv[2], sys.argv[3]
 checks = sys.argv[4:] or [prop]
-sd = os.path.join(wt, "SEED", n)
+sd = os.path.join(wt, os.environ.get("SEED_DIRNAME", "SEED"), n)
 patch = os.path.join(sd, "patch.diff")
 demo = os.path.join(sd, "demo_test.go")
 meta = json.load(open(os.path.join(sd, "meta.json")))
